@@ -23,8 +23,8 @@ SHARD_TIMEOUT = {"quick": 900, "thorough": 3600}
 def plan(tier, seed):
     specs = []
     n = 14
-    ngen = 60 if tier == "quick" else 2500
-    nmut = 150 if tier == "quick" else 5000
+    ngen = 200 if tier == "quick" else 2500
+    nmut = 500 if tier == "quick" else 5000
     for i in range(n):
         specs.append({"name": f"gen-{i}", "mode": "gen", "n": ngen, "rseed": seed * 7919 + i, "nmut": nmut})
     specs.append({"name": "corpus", "mode": "corpus"})
